@@ -57,6 +57,9 @@ Local Hint Resolve wadd_u32 wsub_u32 u32_0 : tinv.
 Lemma trel_intro g t : RV g t -> TR t (G g t).
 Proof. intros H. exists g. split; [reflexivity | exact H]. Qed.
 
+Lemma trel_intro_eq g t t' : t' = G g t -> RV g t -> TR t t'.
+Proof. intros -> H. apply trel_intro. exact H. Qed.
+
 Lemma RV_eq g g' t t1 :
   st t1 = st t -> rcv_irs t1 = rcv_irs t -> rcv_nxt t1 = rcv_nxt t ->
   g_irs g' = g_irs g -> g_nxt g' = g_nxt g -> RV g t -> RV g' t1.
@@ -181,7 +184,6 @@ Lemma ps_ack_rel t t' h : TR t t' -> tinv t -> hok h ->
   TR (fst (ps_ack t h)) (fst (ps_ack t' (HI h))) /\ snd (ps_ack t' (HI h)) = snd (ps_ack t h).
 Proof.
   intros HR Hi Hh.
-  assert (Hsame : forall (a : tcb) (o : option psr), TR a (fst (a, o)) -> True) by auto.
   unfold ps_ack. tcb_cbn.
   destruct (c_ack (h_ctl h)) eqn:Hack; cbn [negb]; [|cbn [fst snd]; auto].
   destruct Hh as (Hq & Ha & Hw).
@@ -225,37 +227,37 @@ Proof.
     destruct (ack_est_rel t1 _ h HR1 Hu Hn Ha Hack eq_refl eq_refl) as [A B].
     destruct (ack_est t1 h) as [t2 r]. destruct (ack_est (G _ t1) (HI h)) as [t2' r'].
     cbn [fst snd] in A, B. subst r'. destruct r; cbn [fst snd]; auto.
-  - destruct (Hest ltac:(rewrite Hst; reflexivity)) as (A & B & _ & _).
+  - destruct (Hest eq_refl) as (A & B & _ & _).
     destruct (ack_est t h) as [t2 r]. destruct (ack_est (G g t) (HI h)) as [t2' r'].
     cbn [fst snd] in A, B. subst r'. destruct r; cbn [fst snd]; auto.
   - (* FinWait1 *)
-    destruct (Hest ltac:(rewrite Hst; reflexivity)) as (A & B & C & D).
+    destruct (Hest eq_refl) as (A & B & C & D).
     destruct (ack_est t h) as [t2 r]. destruct (ack_est (G g t) (HI h)) as [t2' r'].
     cbn [fst snd] in A, B, C, D. subst r'. destruct A as (g2 & -> & Hv2).
     rewrite is_fin_acked_G by apply C.
     assert (A : TR (if is_fin_acked t2 then set_st t2 FinWait2 else t2)
                    (if is_fin_acked t2 then set_st (G g2 t2) FinWait2 else G g2 t2)).
-    { destruct (is_fin_acked t2); apply trel_intro; [|exact Hv2].
+    { destruct (is_fin_acked t2); (apply (trel_intro_eq g2); [reflexivity|]); [|exact Hv2].
       intros _. apply Hv2. rewrite D. reflexivity. }
     destruct r; cbn [fst snd]; auto.
-  - destruct (Hest ltac:(rewrite Hst; reflexivity)) as (A & B & _ & _).
+  - destruct (Hest eq_refl) as (A & B & _ & _).
     destruct (ack_est t h) as [t2 r]. destruct (ack_est (G g t) (HI h)) as [t2' r'].
     cbn [fst snd] in A, B. subst r'. destruct r; cbn [fst snd]; auto.
-  - destruct (Hest ltac:(rewrite Hst; reflexivity)) as (A & B & _ & _).
+  - destruct (Hest eq_refl) as (A & B & _ & _).
     destruct (ack_est t h) as [t2 r]. destruct (ack_est (G g t) (HI h)) as [t2' r'].
     cbn [fst snd] in A, B. subst r'. destruct r; cbn [fst snd]; auto.
   - (* Closing *)
-    destruct (Hest ltac:(rewrite Hst; reflexivity)) as (A & B & C & D).
+    destruct (Hest eq_refl) as (A & B & C & D).
     destruct (ack_est t h) as [t2 r]. destruct (ack_est (G g t) (HI h)) as [t2' r'].
     cbn [fst snd] in A, B, C, D. subst r'. destruct A as (g2 & -> & Hv2).
     rewrite is_fin_acked_G by apply C.
     assert (A : TR (if is_fin_acked t2 then set_time_wait (set_st t2 TimeWait) (Some MSL2) else t2)
                    (if is_fin_acked t2 then set_time_wait (set_st (G g2 t2) TimeWait) (Some MSL2) else G g2 t2)).
-    { destruct (is_fin_acked t2); apply trel_intro; [|exact Hv2].
+    { destruct (is_fin_acked t2); (apply (trel_intro_eq g2); [reflexivity|]); [|exact Hv2].
       intros _. apply Hv2. rewrite D. reflexivity. }
     destruct r; cbn [fst snd]; auto.
   - (* LastAck *)
-    destruct (Hest ltac:(rewrite Hst; reflexivity)) as (A & B & C & D).
+    destruct (Hest eq_refl) as (A & B & C & D).
     destruct (ack_est t h) as [t2 r]. destruct (ack_est (G g t) (HI h)) as [t2' r'].
     cbn [fst snd] in A, B, C, D. subst r'. pose proof A as A'. destruct A' as (g2 & -> & Hv2).
     rewrite is_fin_acked_G by apply C.
@@ -266,7 +268,7 @@ Proof.
     rewrite (wadd_swap (h_seq h) dP 1).
     change (hb_wnd (hb_ack (hb (G g t) (wadd (snd_nxt t) dO)) (wadd (wadd (h_seq h) 1) dP)) (rcv_wnd t))
       with (HO (hb_wnd (hb_ack (hb t (snd_nxt t)) (wadd (h_seq h) 1)) (rcv_wnd t))).
-    rewrite enqueue_G. apply trel_intro.
+    rewrite enqueue_G. apply (trel_intro_eq g); [reflexivity|].
     revert Hv. apply RV_eq; tcb_cbn; auto using enqueue_st, enqueue_rcv_irs, enqueue_rcv_nxt.
 Qed.
 
@@ -307,10 +309,7 @@ Proof.
     apply trel_intro. apply RV_enqueue. intros _. split; reflexivity.
   - change (set_st (G g1 t1) SynReceived) with (G g1 (set_st t1 SynReceived)).
     split; [|reflexivity].
-    change (hb_wnd (hb_ack (hb_syn (hb (G g1 (set_st t1 SynReceived)) (snd_iss (G g1 (set_st t1 SynReceived)))))
-                    (rcv_nxt (G g1 (set_st t1 SynReceived)))) (rcv_wnd (G g1 (set_st t1 SynReceived))))
-      with (HO (hb_wnd (hb_ack (hb_syn (hb (set_st t1 SynReceived) (snd_iss (set_st t1 SynReceived))))
-                    (rcv_nxt (set_st t1 SynReceived))) (rcv_wnd (set_st t1 SynReceived)))).
+    match goal with |- TR (enqueue ?a ?hh) (enqueue (G ?gg ?a) ?hh') => change hh' with (HO hh) end.
     rewrite enqueue_G. apply trel_intro. apply RV_enqueue. intros _. split; reflexivity.
 Qed.
 
@@ -373,25 +372,27 @@ Proof.
   set (t1' := if state_eqb (st t) SynSent then G g t else _).
   assert (H1 : exists g1, t1' = G g1 t1 /\ RV g1 t1 /\ st t1 = st t /\
                           snd_nxt t1 = snd_nxt t /\ snd_una t1 = snd_una t).
-  { subst t1 t1'. destruct (st t) eqn:Hst; cbn [state_eqb];
-      try (exists g; repeat split; [exact Hv | exact Hst]);
-      (destruct (Hv ltac:(rewrite Hst; reflexivity)) as [Ei En];
-       rewrite En; rewrite (wadd_swap (h_seq h) dP n), (wadd_swap (wadd (h_seq h) n) dP 1);
-       rewrite !eqb_shift by (auto with tinv; apply Hi);
-       destruct (_ || _); [|exists g; repeat split; [exact Hv | exact Hst]];
-       cbv zeta;
-       rewrite (G_set_rcv_nxt dO dP g t _ (wadd (wadd (h_seq h) n) 1));
-       rewrite ack_hdr_G by reflexivity; rewrite enqueue_G;
-       eexists; split; [reflexivity|];
-       rewrite enqueue_st, enqueue_snd_nxt, enqueue_snd_una; tcb_cbn;
-       repeat split; try exact Hst;
-       apply RV_enqueue; intros _; split; [exact Ei | reflexivity]). }
+  { assert (Hsame : exists g1, G g t = G g1 t /\ RV g1 t /\ st t = st t /\
+                               snd_nxt t = snd_nxt t /\ snd_una t = snd_una t).
+    { exists g. split; [reflexivity | split; [exact Hv | split; [reflexivity | split; reflexivity]]]. }
+    subst t1 t1'. destruct (state_eqb (st t) SynSent) eqn:Ess; [exact Hsame|].
+    assert (Hst : is_synsent (st t) = false) by (destruct (st t); try reflexivity; discriminate).
+    destruct (Hv Hst) as [Ei En].
+    rewrite En. rewrite (wadd_swap (h_seq h) dP n), (wadd_swap (wadd (h_seq h) n) dP 1).
+    rewrite !eqb_shift by (auto with tinv; apply Hi).
+    destruct (_ || _); [|exact Hsame]. cbv zeta.
+    rewrite (G_set_rcv_nxt dO dP g t _ (wadd (wadd (h_seq h) n) 1)).
+    rewrite ack_hdr_G by reflexivity. rewrite enqueue_G.
+    eexists. split; [reflexivity|].
+    rewrite enqueue_st, enqueue_snd_nxt, enqueue_snd_una.
+    split; [|split; [reflexivity | split; reflexivity]].
+    apply RV_enqueue. intros _. split; [exact Ei | reflexivity]. }
   destruct H1 as (g1 & -> & Hv1 & Est & En1 & Eu1). clearbody t1. tcb_cbn.
   assert (Hfa : is_fin_acked (G g1 t1) = is_fin_acked t1).
   { apply is_fin_acked_G; [rewrite En1 | rewrite Eu1]; apply Hi. }
   destruct (st t1) eqn:Hst1; try (apply trel_intro; exact Hv1);
-    try (apply trel_intro; intros _; apply Hv1; rewrite Hst1; reflexivity).
-  rewrite Hfa. destruct (is_fin_acked t1); apply trel_intro; intros _; apply Hv1; rewrite Hst1; reflexivity.
+    try rewrite Hfa; try destruct (is_fin_acked t1);
+    (apply (trel_intro_eq g1); [reflexivity|]; intros _; apply Hv1; rewrite Hst1; reflexivity).
 Qed.
 
 (* ---- process_segment ---- *)
@@ -549,14 +550,9 @@ Proof.
     with (HO (hb_wnd (hb_ack (hb_syn (hb t iss)) (wadd (h_seq h) 1)) DEFAULT_WND)).
   rewrite enqueue_G.
   set (t1 := enqueue t _).
-  set (h' := mkHdr (h_sport h) (h_dport h) (h_seq h) (h_ack h)
-                   (mkCtl (c_urg (h_ctl h)) false (c_psh (h_ctl h)) (c_rst (h_ctl h)) false (c_fin (h_ctl h)))
-                   (h_wnd h) (h_urg h)).
-  change (mkSeg (mkHdr (h_sport h) (h_dport h) (wadd (h_seq h) dP) (h_ack h)
-                   (mkCtl (c_urg (h_ctl h)) false (c_psh (h_ctl h)) (c_rst (h_ctl h)) false (c_fin (h_ctl h)))
-                   (h_wnd h) (h_urg h)) (s_text s)) with (SI (mkSeg h' (s_text s))).
   assert (Ein : in_segs t1 = []) by (subst t1; rewrite enqueue_in_segs; reflexivity).
   change (in_segs (G g t1)) with (map SI (in_segs t1)).
+  match goal with |- TR (set_in_segs _ (heap_push _ ?x)) (set_in_segs _ (heap_push _ ?x')) => change x' with (SI x) end.
   rewrite heap_push_sh; [| rewrite Ein; constructor | exact Hq].
   rewrite G_set_in_segs. apply trel_intro.
   intros _. subst t1. unfold enqueue. destruct (_ || _); split; reflexivity.
@@ -566,7 +562,7 @@ Qed.
 Lemma tcb_send_rel t t' b : TR t t' -> TR (tcb_send t b) (tcb_send t' b).
 Proof.
   intros (g & -> & Hv). unfold tcb_send. tcb_cbn.
-  destruct (accepts_send (st t)); apply trel_intro; [|exact Hv].
+  destruct (accepts_send (st t)); (apply (trel_intro_eq g); [reflexivity|]); [|exact Hv].
   revert Hv. apply RV_eq; reflexivity.
 Qed.
 
@@ -574,7 +570,7 @@ Lemma tcb_receive_rel t t' : TR t t' ->
   TR (fst (tcb_receive t)) (fst (tcb_receive t')) /\ snd (tcb_receive t') = snd (tcb_receive t).
 Proof.
   intros (g & -> & Hv). unfold tcb_receive. cbn [fst snd]. split; [|reflexivity].
-  apply trel_intro. revert Hv. apply RV_eq; reflexivity.
+  apply (trel_intro_eq g); [reflexivity|]. revert Hv. apply RV_eq; reflexivity.
 Qed.
 
 Lemma queue_pending_fin_rel t t' : TR t t' -> tinv t -> TR (queue_pending_fin t) (queue_pending_fin t').
@@ -590,11 +586,13 @@ Proof.
   set (t1 := set_fin_pending t false).
   assert (Hv1 : RV g t1) by (revert Hv; apply RV_eq; reflexivity).
   assert (En1 : g_nxt g = wadd (rcv_nxt t1) dP) by exact En.
-  clearbody t1. tcb_cbn. rewrite En1.
-  change (hb_wnd (hb_ack (hb_fin (hb (G g t1) (wadd (snd_nxt t1) dO))) (wadd (rcv_nxt t1) dP)) (rcv_wnd t1))
-    with (HO (hb_wnd (hb_ack (hb_fin (hb t1 (snd_nxt t1))) (rcv_nxt t1)) (rcv_wnd t1))).
-  rewrite enqueue_G. tcb_cbn. rewrite (wadd_swap _ dO 1).
-  rewrite G_set_snd_nxt. apply trel_intro.
+  try (change (rcv_nxt (G g t1)) with (g_nxt g)). rewrite ?En1.
+  match goal with |- TR (set_snd_nxt (enqueue _ ?hh) _) (set_snd_nxt (enqueue _ ?hh') _) =>
+    change hh' with (HO hh) end.
+  rewrite enqueue_G.
+  match goal with |- context [snd_nxt (G g ?x)] => change (snd_nxt (G g x)) with (wadd (snd_nxt x) dO) end.
+  rewrite (wadd_swap _ dO 1).
+  rewrite G_set_snd_nxt. apply (trel_intro_eq g); [reflexivity|].
   apply (RV_eq g g t1); auto using enqueue_st, enqueue_rcv_irs, enqueue_rcv_nxt.
 Qed.
 
@@ -604,7 +602,7 @@ Proof.
   intros HR Hi. pose proof HR as (g & -> & Hv). unfold tcb_close. tcb_cbn.
   destruct (st t) eqn:Hst; cbn [fst snd]; (split; [|reflexivity]); try exact HR;
   (apply queue_pending_fin_rel;
-   [ apply trel_intro; intros _; apply Hv; rewrite Hst; reflexivity
+   [ apply (trel_intro_eq g); [reflexivity|]; intros _; apply Hv; rewrite Hst; reflexivity
    | apply tinv_set_st; [apply tinv_set_fin_pending; [exact Hi | rewrite Hst; reflexivity]
                         | tcb_cbn; rewrite Hst; reflexivity] ]).
 Qed.
@@ -623,15 +621,15 @@ Proof.
     - split; [reflexivity | revert Hv; apply RV_eq; reflexivity]. }
   destruct H1 as [-> Hv1]. clearbody t1. tcb_cbn.
   destruct (time_wait t1) as [tw|]; [|cbn [fst snd]; split; [apply trel_intro; exact Hv1 | reflexivity]].
-  destruct (tw <? dt); cbn [fst snd]; (split; [|reflexivity]); apply trel_intro; [exact Hv1|].
+  destruct (tw <? dt); cbn [fst snd]; (split; [|reflexivity]); (apply (trel_intro_eq g); [reflexivity|]); [exact Hv1|].
   revert Hv1. apply RV_eq; reflexivity.
 Qed.
 
 (* ---- segments() ---- *)
-Lemma seg_loop_rel fuel : forall t t' mss rem, TR t t' -> tinv t ->
+Lemma seg_loop_rel fuel : forall t t' mss rem, TR t t' -> tinv t -> 0 <= mss -> 0 <= rem ->
   rrel TR (seg_loop fuel t mss rem) (seg_loop fuel t' mss rem).
 Proof.
-  induction fuel as [|f IH]; intros t t' mss rem HR Hi; cbn [seg_loop]; [exact I|]. cbv zeta.
+  induction fuel as [|f IH]; intros t t' mss rem HR Hi Hmss Hrem; cbn [seg_loop]; [exact I|]. cbv zeta.
   pose proof HR as (g & -> & Hv). tcb_cbn. rewrite wsub_shift.
   set (bytes := Z.min (Z.min mss (Z.max 0 (snd_wnd t - wsub (snd_nxt t) (snd_una t)))) rem).
   destruct (bytes =? 0) eqn:Eb; [cbn [rrel]; exact HR|].
@@ -643,11 +641,10 @@ Proof.
     subst bytes. rewrite H in Eb. lia. }
   destruct (Hv Hst) as [Ei En]. rewrite En.
   rewrite (wadd_swap (snd_nxt t) dO bytes).
-  apply IH.
-  - change (hb_wnd (hb_ack (hb (G g t) (wadd (snd_nxt t) dO)) (wadd (rcv_nxt t) dP)) (rcv_wnd t))
-      with (HO (hb_wnd (hb_ack (hb t (snd_nxt t)) (rcv_nxt t)) (rcv_wnd t))).
-    match goal with |- TR ?a _ => apply (trel_intro g a) end.
-    revert Hv. apply RV_eq; reflexivity.
+  apply IH; [| | exact Hmss | subst bytes; lia].
+  - apply (trel_intro_eq g).
+    + unfold gsh. tcb_cbn. rewrite map_app. reflexivity.
+    + revert Hv. apply RV_eq; reflexivity.
   - apply tinv_set_retx.
     + apply tinv_set_snd_nxt; [apply tinv_set_out_text; exact Hi | apply wadd_u32].
     + tcb_cbn. apply Forall_app. split; [apply Hi|]. constructor; [|constructor].
@@ -658,22 +655,25 @@ Definition ps_rel (p p' : tcb * list segment) : Prop := TR (fst p) (fst p') /\ s
 
 Lemma tcb_segments_rel t t' : TR t t' -> tinv t -> rrel ps_rel (tcb_segments t) (tcb_segments t').
 Proof.
-  intros (g & -> & Hv) Hi. unfold tcb_segments. tcb_cbn.
+  intros (g & -> & Hv) Hi. unfold tcb_segments.
+  change (oneshot (G g t)) with (map HO (oneshot t)).
+  change (set_oneshot (G g t) []) with (G g (set_oneshot t [])).
   set (t0 := set_oneshot t []).
-  change (set_oneshot (G g t) []) with (G g t0).
   assert (Hv0 : RV g t0) by (revert Hv; apply RV_eq; reflexivity).
   assert (Hi0 : tinv t0) by (apply tinv_set_oneshot; [exact Hi | constructor]).
   assert (E0 : map (fun h => mkSeg h []) (map HO (oneshot t)) = map SO (map (fun h => mkSeg h []) (oneshot t))).
   { rewrite !map_map. reflexivity. }
   rewrite E0. clear E0. set (out0 := map (fun h => mkSeg h []) (oneshot t)).
-  clearbody t0 out0. tcb_cbn.
-  set (r1 := if segmentizes (st t0) then _ else _).
-  set (r1' := if segmentizes (st t0) then _ else _).
+  clearbody t0 out0.
+  change (st (G g t0)) with (st t0). change (mtu (G g t0)) with (mtu t0).
+  change (out_text (G g t0)) with (out_text t0).
+  match goal with |- rrel _ (match ?a with Ok _ => _ | _ => _ end) (match ?b with Ok _ => _ | _ => _ end) =>
+    set (r1 := a); set (r1' := b) end.
   assert (Hr : rrel TR r1 r1' /\ forall t1, r1 = Ok t1 -> tinv t1).
   { subst r1 r1'. destruct (segmentizes (st t0)); [|split; [apply trel_intro; exact Hv0 | intros ? [= <-]; exact Hi0]].
-    destruct (mtu t0 <? SPACE_FOR_HEADERS); [split; [reflexivity | discriminate]|].
+    destruct (mtu t0 <? SPACE_FOR_HEADERS) eqn:Emtu; [split; [reflexivity | discriminate]|].
     pose proof (seg_loop_rel (S (length (out_text t0))) t0 (G g t0) (mtu t0 - SPACE_FOR_HEADERS)
-                  (zlen (out_text t0)) (trel_intro g t0 Hv0) Hi0) as A.
+                  (zlen (out_text t0)) (trel_intro g t0 Hv0) Hi0 ltac:(lia) ltac:(unfold zlen; lia)) as A.
     pose proof (tinv_seg_loop (S (length (out_text t0))) t0 (mtu t0 - SPACE_FOR_HEADERS) (zlen (out_text t0))) as B.
     destruct (seg_loop _ t0 _ _) as [t1| | |]; destruct (seg_loop _ (G g t0) _ _) as [t1'| | |];
       cbn [rrel] in A |- *; try contradiction; (split; [auto | try discriminate]).
@@ -691,7 +691,7 @@ Proof.
   { rewrite !map_map. reflexivity. }
   rewrite E2. clear E2. rewrite G_set_retx.
   split; cbn [fst snd]; [|reflexivity].
-  destruct out; cbn [map]; apply trel_intro; revert Hv1; apply RV_eq; reflexivity.
+  destruct out; cbn [map]; (apply (trel_intro_eq g1); [reflexivity|]); revert Hv1; apply RV_eq; reflexivity.
 Qed.
 
 End Ops.
